@@ -20,6 +20,9 @@ def gen_program(rng, i, profile):
     ttl = rng.choice(["none", "none", "none", 3_000_000_000])
     tti = rng.choice(["none", "none", "none", 3_000_000_000])
     weigher = rng.choice(["none", "none", "value"])
+    if profile == "hot":
+        # every thread hammers the same one or two keys with weight-changing updates
+        nth, nkeys, weigher, cap = rng.choice([2, 3, 4]), rng.choice([1, 2]), "value", rng.choice(["none", "none", 3000])
     cfg = f"cfg kind=conc cap={cap} ttl={ttl} tti={tti} weigher={weigher} hasher={rng.choice(['id', 'mod:2', 'const:7'])}"
     val = [100]
     lines = [cfg]
@@ -41,10 +44,12 @@ def gen_program(rng, i, profile):
         ops = []
         for _ in range(nops):
             k = rng.randrange(1, nkeys + 1)
-            r = rng.random()
+            r = rng.random() * (0.6 if profile == "hot" else 1.0)
             if r < 0.42:
                 val[0] += 1
                 v = val[0] if weigher == "none" else rng.choice([1, 2, 3]) + 10 * val[0]
+                if profile == "hot":
+                    v = 1000 + val[0] * 10 + rng.randrange(10)
                 ops.append(f"I {k} {val[0] if weigher == 'none' else v}")
             elif r < 0.75:
                 ops.append(f"G {k}")
@@ -237,7 +242,9 @@ def explore(pid, tier, seed, nprog, exhaustive_bound):
     rng = random.Random(seed * 31337 + int(pid[1:]))
     cases = []
     for i in range(nprog):
-        profile = rng.choice(["tiny", "basic", "basic", "robust"]) if pid not in ("C02", "C07") else rng.choice(["tiny", "basic", "basic", "invall"])
+        profile = rng.choice(["tiny", "basic", "basic", "robust", "hot"]) if pid not in ("C02", "C07") else rng.choice(["tiny", "basic", "basic", "invall"])
+        if pid in ("C10", "C04") and rng.random() < 0.4:
+            profile = "hot"
         lines, nth = gen_program(rng, i, profile)
         # the unpreempted run, random schedules, and bounded-preemption exploration
         cases.append((f"p{i}_seq", lines + ["RUN"]))
